@@ -92,6 +92,15 @@ func Generate(rng *rand.Rand, i int, thorough bool) *p2prig.Scenario {
 	case 2:
 		if !atTip && s.HonestLen-lastCp > 8 {
 			s.InitialStore, s.PrefixLen = "lighter-fork", lastCp+rng.Intn(s.HonestLen-lastCp-4)
+			switch rng.Intn(4) {
+			case 0:
+				s.PrefixLen = s.HonestLen - 3 // the store's (lighter) tip is exactly as high as the honest peer's chain
+			case 1:
+				if s.HonestLen-lastCp > 12 && s.HonestLen < 700 {
+					// a stale fork of light blocks reaching above the honest peer's tip
+					s.InitialStore, s.PrefixLen = "tall-stale-fork", lastCp+3+rng.Intn(s.HonestLen-lastCp-6)
+				}
+			}
 		} else {
 			s.InitialStore = "genesis"
 		}
@@ -125,7 +134,7 @@ func Generate(rng *rand.Rand, i int, thorough bool) *p2prig.Scenario {
 			}
 			fl := 1 + rng.Intn(maxLen)
 			slow := false
-			if (s.InitialStore == "prefix" || s.InitialStore == "stale-fork" || s.InitialStore == "lighter-fork") && s.PrefixLen > forkAt && forkAt+fl > s.PrefixLen {
+			if (s.InitialStore == "prefix" || s.InitialStore == "stale-fork" || s.InitialStore == "lighter-fork" || s.InitialStore == "tall-stale-fork") && s.PrefixLen > forkAt && forkAt+fl > s.PrefixLen {
 				// The store already holds the honest chain beyond this fork point and the forker is taller than the
 				// store: if it becomes the sync peer its reply holds no longest-chain header, it is not asked again,
 				// and other peers' announcements are ignored until the 3-minute sync-peer rotation. Quick tier:
@@ -143,7 +152,7 @@ func Generate(rng *rand.Rand, i int, thorough bool) *p2prig.Scenario {
 			linear = false
 		}
 	}
-	if s.InitialStore == "stale-fork" || s.InitialStore == "lighter-fork" {
+	if s.InitialStore == "stale-fork" || s.InitialStore == "lighter-fork" || s.InitialStore == "tall-stale-fork" {
 		linear = false
 	}
 	// The legacy server opens up to 8 outbound connections and up to 5 to one host: keep the other nodes from
